@@ -246,6 +246,9 @@ func runC01(c *Ctx) {
 		borrowRules(c, []string{"R08.3"}, runC08)
 		borrowRules(c, []string{"R03.6"}, runC03)
 	}
+	// shared with C10: a planted copy is reported only if Match returns at all - a table indexed by line numbers is a map, or the
+	// index is tested against its length (R10.12)
+	checkLineKeyedTables(c, p, v2LibFuncs(p))
 	ts := p.Func(v2pkg, "tokenizeStream")
 	if !c.R.Anchor(ts != nil, "v2.tokenizeStream") {
 		return
